@@ -374,6 +374,151 @@ func checkC09(w *World, c *Check, tier string) {
 		}
 	}
 
+	// ---- flat: an Equals method never hands its own two operands back to the dispatcher ----
+	// ItemsEqual(x, y) dispatches to x.Equals(y) (after possibly exchanging the operands); an Equals that answers by calling
+	// ItemsEqual on the very same two values closes a cycle in which nothing gets smaller: the comparison never returns
+	nflat := 0
+	for _, f := range w.Funcs {
+		root := f
+		for root.Parent() != nil {
+			root = root.Parent()
+		}
+		if root.Name() != "Equals" || root.Signature.Recv() == nil || len(root.Params) < 2 {
+			continue
+		}
+		isOperand := func(v ssa.Value) bool {
+			v = unwrap(v)
+			for _, p := range root.Params {
+				if v == ssa.Value(p) {
+					return true
+				}
+			}
+			if fv, ok := v.(*ssa.FreeVar); ok {
+				if b, ok := pr.fvMap[fv]; ok {
+					for _, p := range root.Params {
+						if unwrap(b) == ssa.Value(p) {
+							return true
+						}
+						if al, ok := b.(*ssa.Alloc); ok {
+							for _, st := range storesTo(al) {
+								if st.Val == ssa.Value(p) {
+									return true
+								}
+							}
+						}
+					}
+				}
+			}
+			if ld, ok := v.(*ssa.UnOp); ok && ld.Op == token.MUL {
+				if al, ok := ld.X.(*ssa.Alloc); ok {
+					for _, st := range storesTo(al) {
+						for _, p := range root.Params {
+							if st.Val == ssa.Value(p) {
+								return true
+							}
+						}
+					}
+				}
+				if fv, ok := ld.X.(*ssa.FreeVar); ok {
+					if b, ok := pr.fvMap[fv]; ok {
+						if al, ok := b.(*ssa.Alloc); ok {
+							for _, st := range storesTo(al) {
+								for _, p := range root.Params {
+									if st.Val == ssa.Value(p) {
+										return true
+									}
+								}
+							}
+						}
+					}
+				}
+			}
+			return false
+		}
+		for _, call := range callsIn(f) {
+			if call.Common().StaticCallee() != itemsEqual || len(call.Common().Args) != 2 {
+				continue
+			}
+			nflat++
+			if isOperand(call.Common().Args[0]) && isOperand(call.Common().Args[1]) {
+				c.bad("C09.flat", funcName(root), w.InstrPos(call), fmt.Sprintf("%s answers by calling ItemsEqual on its own two operands (at %s): ItemsEqual dispatches back to Equals, nothing gets smaller, and for operands that make the dispatcher choose this method again the comparison recurses until the stack is exhausted", funcName(root), w.InstrPos(call)))
+			}
+		}
+	}
+	c.ok("C09.flat", "scan", "-", fmt.Sprintf("%d ItemsEqual calls inside Equals methods, none on the method's own two operands", nflat))
+
+	// ---- contains: membership of an argument is decided by comparing it with the members, whatever the argument is ----
+	if ct := w.Method("ItemCollection", "Contains"); ct != nil && len(ct.Params) == 2 {
+		bad := ""
+		for _, rb := range returnBlocks(ct) {
+			ret := rb.Instrs[len(rb.Instrs)-1].(*ssa.Return)
+			if len(ret.Results) != 1 {
+				continue
+			}
+			k, ok := ret.Results[0].(*ssa.Const)
+			if !ok || k.Value == nil || k.Value.String() != "false" {
+				continue
+			}
+			for _, g := range rawGuards(rb) {
+				if call, ok := g.cond.(*ssa.Call); ok && g.onTrue {
+					for _, a := range allArgs(call) {
+						if unwrap(a) == ssa.Value(ct.Params[1]) {
+							name := "a predicate"
+							if cal := call.Common().StaticCallee(); cal != nil {
+								name = cal.Name()
+							}
+							bad = fmt.Sprintf("ItemCollection.Contains answers false as soon as %s holds for the argument (at %s), without looking at the members: a nil-like member can never be found, so a list that holds one is not equal to itself", name, w.InstrPos(ret))
+						}
+					}
+				}
+			}
+		}
+		// the same refusal written as part of a disjunction (len(i) == 0 || IsNil(r)): an If on a predicate of the argument
+		// whose true edge goes straight to a block that returns false
+		returnsFalse := func(b *ssa.BasicBlock) bool {
+			for hops := 0; hops < 3 && b != nil; hops++ {
+				if ret, ok := b.Instrs[len(b.Instrs)-1].(*ssa.Return); ok {
+					if len(ret.Results) == 1 {
+						if k, ok := ret.Results[0].(*ssa.Const); ok && k.Value != nil && k.Value.String() == "false" {
+							return true
+						}
+					}
+					return false
+				}
+				if _, ok := b.Instrs[len(b.Instrs)-1].(*ssa.Jump); ok && len(b.Instrs) == 1 {
+					b = b.Succs[0]
+					continue
+				}
+				return false
+			}
+			return false
+		}
+		for _, b := range ct.Blocks {
+			ifi, ok := b.Instrs[len(b.Instrs)-1].(*ssa.If)
+			if !ok {
+				continue
+			}
+			call, ok := ifi.Cond.(*ssa.Call)
+			if !ok {
+				continue
+			}
+			for _, a := range allArgs(call) {
+				if unwrap(a) == ssa.Value(ct.Params[1]) && returnsFalse(b.Succs[0]) {
+					name := "a predicate"
+					if cal := call.Common().StaticCallee(); cal != nil {
+						name = cal.Name()
+					}
+					bad = fmt.Sprintf("ItemCollection.Contains answers false as soon as %s holds for the argument (at %s), without looking at the members: a nil-like member can never be found, so a list that holds one is not equal to itself", name, w.InstrPos(ifi))
+				}
+			}
+		}
+		if bad != "" {
+			c.bad("C09.member", "ItemCollection.Contains", w.FuncPos(ct), bad)
+		} else {
+			c.ok("C09.member", "ItemCollection.Contains", w.FuncPos(ct), "no early refusal that depends on the argument alone")
+		}
+	}
+
 	// ---- pair: a comparison inside an equality relates the SAME property of the two operands ----
 	var eqFns []*ssa.Function
 	for _, f := range w.Funcs {
